@@ -657,6 +657,48 @@ theorem budget_utf32toUtf8 (cs : List Char) (h : NoNul cs) (junk : List Int) (n 
       have : (n - 1).toNat = k := by omega
       simp [contB, hz, Std.utf8, this]
 
+/-! ## G obligations: buffer sizes, unit budgets and the scratch offset regenerated from `src/String.cpp` -/
+
+/-- the expressions the String methods hand to the converters, as regenerated from the source on every run,
+    are the ones the model (and so every `utf_safe_*` / `fixW_*` theorem) uses -/
+theorem alloc_exprs_from_source (len n : Nat) :
+    datawResizeArg len = datawNeed len ∧ datawOffset len = wideOffset len ∧ fixWOffset len = wideOffset len ∧
+    fromWideInit n = 4 * n ∧ fromWideArrInit n = 4 * n ∧ fromCodesSize n = 4 * n ∧ fromCodesBudget n = n + 1 ∧
+    fromCodeSize = 4 ∧ fromCodeBudget = 1 ∧ charsRoom len = len + 1 ∧ charsBudget len = len := by
+  refine ⟨rfl, rfl, rfl, rfl, rfl, ?_, rfl, rfl, rfl, rfl, rfl⟩
+  unfold fromCodesSize; omega
+
+/-- the safety statements restated directly over the regenerated expressions: with the sizes and budgets the
+    source has NOW, for every byte string `s`, every 32-bit `codes`/`c`/`w`: `chars()` stays inside `Array<int>(…)`,
+    `fromCodes`/`fromCode` inside `String(…, 0)` (+1 terminator), `String(wchar_t*)`/`String(Array<wchar_t>)` inside
+    `cap()` after `init(…)`, and `dataw()` stores units and terminator between `offset` and the end of the
+    `resize(…)`d buffer (`resize(m)` provides `m + 1` bytes) -/
+theorem utf_safe_source_sizes (s : List UInt8) (codes : List Int) (c : Int) (w : List Int) :
+    (∃ out, utf8toUtf32 (mem s) (charsBudget s.length) = some out ∧ out.length + 1 ≤ charsRoom s.length) ∧
+    (∃ out, utf32toUtf8 (codes ++ [0]) (fromCodesBudget codes.length) = some out ∧
+        out.length + 1 ≤ fromCodesSize codes.length + 1) ∧
+    (∃ out, utf32toUtf8 [c, 0] fromCodeBudget = some out ∧ out.length + 1 ≤ fromCodeSize + 1) ∧
+    (∃ out, utf16toUtf8 (w ++ [0]) (capAfterInit (fromWideArrInit w.length)) = some out ∧
+        out.length + 1 ≤ capAfterInit (fromWideArrInit w.length)) ∧
+    (∃ u, utf8toUtf16 (mem s) s.length = some u ∧
+        datawOffset s.length + 4 * (u.length + 1) ≤ datawResizeArg s.length + 1) := by
+  obtain ⟨_, ⟨o1, h1, l1⟩, _, ⟨u, h4, l4⟩⟩ := utf_safe_string s
+  obtain ⟨⟨o2, h2, l2⟩, ⟨o3, h3, l3⟩, _⟩ := utf_safe_constructors codes c [0] (by simp [hasZero])
+  refine ⟨⟨o1, h1, l1⟩, ⟨o2, ?_, ?_⟩, ⟨o3, h3, l3⟩, ?_, ⟨u, h4, ?_⟩⟩
+  · unfold fromCodes at h2; unfold fromCodesBudget; exact_mod_cast h2
+  · unfold fromCodesSize; omega
+  · obtain ⟨_, ⟨o, h1, l1⟩⟩ := utf_safe_encoders (w ++ [0]) (capAfterInit (fromWideArrInit w.length)) (by simp [hasZero])
+    refine ⟨o, h1, ?_⟩
+    have := ilen_append_zero w
+    unfold fromWideArrInit capAfterInit
+    split <;> omega
+  · unfold wideRoom wideOffset at l4
+    unfold datawOffset datawResizeArg
+    rw [and3, and3] at *
+    omega
+
+example : datawOffset 5 = 8 ∧ datawResizeArg 5 = 34 ∧ fromCodesBudget 3 = 4 := by decide
+
 /-! ## extension round: U+0000, `wlength()`, `equalsNocase` as an equivalence -/
 
 theorem countFrom_std_junk (cs : List Char) (h : NoNul cs) (junk : List UInt8) :
